@@ -794,8 +794,10 @@ func genScenarios(o *Opts, r *Rand) []*seqScenario {
 		}
 	}
 	if fam("localcrash") {
-		for i := 0; i < 4*mul; i++ {
-			add(famLocalCrash(r.Fork(), 50+r.Intn(40), 2+r.Intn(5)))
+		for i := 0; i < 8*mul; i++ {
+			// operations of the round: staging upload, lock replace, three tile uploads (in whatever order their
+			// goroutines arrive), checkpoint upload: most crashes fall after every tile and before the checkpoint
+			add(famLocalCrash(r.Fork(), 50+r.Intn(40), []int{3, 4, 5, 5, 5, 6}[r.Intn(6)]))
 		}
 	}
 	if fam("stalelock") {
